@@ -873,9 +873,11 @@ func (l *lexer) print(w ast.Word) string {
 
 func (l *lexer) scanToken() int {
 	var blank bool
-	if len(l.aliases) != 0 {
-		if a := l.aliases[len(l.aliases)-1]; a.value.Len() == 0 {
-			blank = a.blank
+	// every alias that ends here: the innermost one may itself be the last
+	// word of an alias whose value ends in a <blank>
+	for i := len(l.aliases) - 1; i >= 0 && l.aliases[i].value.Len() == 0; i-- {
+		if l.aliases[i].blank {
+			blank = true
 		}
 	}
 Scan:
